@@ -13,6 +13,7 @@ has no child yet.
 A violated obligation yields model values for the whole history; it is replayed as that very
 history on the real backend against the concrete contract (icheck.Contract)."""
 import os
+import re
 import sys
 import time
 
@@ -53,10 +54,12 @@ class Spec:
 
     def add_version(self, cid, v, p, seg):
         found, _ = self.client(cid)
-        dup_id = z3.Or([z3.And(pp, c == cid, vv == v) for pp, c, vv, _, _ in self.versions] + [F])
+        # version ids are globally fresh (the server draws them from its RNG; SQLite keys the table by them)
+        dup_id = z3.Or([z3.And(pp, vv == v) for pp, c, vv, _, _ in self.versions] + [F])
         dup_par = z3.Or([z3.And(pp, c == cid, par == p) for pp, c, _, par, _ in self.versions] + [F])
-        pre = z3.Not(z3.Or(dup_id, dup_par))
-        ok = found
+        # preconditions of the contract: the client exists, the id is fresh, the parent has no child
+        pre = z3.And(found, z3.Not(z3.Or(dup_id, dup_par)))
+        ok = T
         self.versions.append((ok, cid, v, p, seg))
         self.clients = [(pp, c, [z3.If(z3.And(pp, c == cid), v, vals[0]), vals[1], vals[2], vals[3],
                                  z3.If(z3.And(pp, c == cid, vals[1]), vals[4] + 1, vals[4])]) for pp, c, vals in self.clients]
@@ -68,7 +71,7 @@ class Spec:
         self.clients = [(pp, c, [vals[0]] + [z3.If(z3.And(pp, c == cid), n, o) for n, o in zip([T, svid, sts, ssince], vals[1:])]) for pp, c, vals in self.clients]
         self.snapdata = [(p, c, z3.If(z3.And(p, c == cid), data, d)) for p, c, d in self.snapdata]
         self.snapdata.append((z3.And(found, z3.Not(had)), cid, data))
-        return T, found
+        return found, T
 
     def snapshot_bytes(self, cid, v):
         found, vals = self.client(cid)
@@ -113,9 +116,12 @@ def histories():
           ('add_version', A, [v('v4'), v('p4'), seg('s4')]),
           ('set_snapshot', A, [v('sv3'), ts('t3'), cnt('c3'), seg('d3')]),
           ('get_snapshot_data', A, [v('g1')]), ('get_snapshot_data', Bc, [v('g2')]), ('get_client', A, []), ('get_client', Bc, [])]
-    h3 = [('add_version', A, [v('v1'), v('p1'), seg('s1')]), ('set_snapshot', A, [v('sv1'), ts('t1'), cnt('c1'), seg('d1')]),
-          ('get_client', A, []), ('new_client', A, [v('lA')]), ('get_version_by_parent', A, [v('q1')]), ('get_snapshot_data', A, [v('g1')])]
-    return {'two clients: versions': h1, 'two clients: snapshots': h2, 'unknown client': h3}
+    h3 = [('get_client', A, []), ('get_version_by_parent', A, [v('q1')]), ('get_version', A, [v('q2')]), ('get_snapshot_data', A, [v('g1')]),
+          ('new_client', A, [v('lA')]), ('get_client', A, []), ('get_version_by_parent', A, [v('q1')]), ('get_snapshot_data', A, [v('g1')])]
+    h4 = [('new_client', A, [v('lA')]), ('add_version', A, [v('v1'), v('p1'), seg('s1')]), ('add_version', A, [v('v3'), v('p3'), seg('s3')]),
+          ('set_snapshot', A, [v('sv1'), ts('t1'), cnt('c1'), seg('d1')]), ('set_snapshot', A, [v('sv3'), ts('t3'), cnt('c3'), seg('d3')]),
+          ('get_snapshot_data', A, [v('g1')]), ('get_client', A, [])]
+    return {'two clients: versions': h1, 'two clients: snapshots': h2, 'unknown client': h3, 'snapshot after snapshot': h4}
 
 
 def call_args(L, method, args):
@@ -125,23 +131,44 @@ def call_args(L, method, args):
     return list(args)
 
 
+def sqlite_method(prog, name):
+    c = [f for n, f in prog.funcs.items() if n.endswith('::' + name) and f.args and re.match(r'^&mut Txn\b', f.args[0][1])]
+    if len(c) != 1:
+        raise Unsupported('sqlite method %s: %d candidates in the MIR dump' % (name, len(c)))
+    return c[0]
+
+
 def run_history(task):
-    mir_path, repo, name = task
-    out = {'history': name, 'obl': {}, 'paths': 0, 'queries': 0, 'solver_s': 0.0, 'steps': 0, 'violations': [], 'error': None, 'calls': 0}
+    mir_path, repo, name = task[:3]
+    backend = task[3] if len(task) > 3 else 'imem'
+    out = {'history': name, 'backend': backend, 'obl': {}, 'paths': 0, 'queries': 0, 'solver_s': 0.0, 'steps': 0, 'violations': [], 'error': None, 'calls': 0}
     try:
         if mir_path not in ic._PROG:
             ic._PROG[mir_path] = Program(open(mir_path).read(), {})
         prog = ic._PROG[mir_path]
         L = ic.Layout(repo, strict=False)
         hist = histories()[name]
-        inner = Agg('Inner', 'Inner', 0, [SymMap(n) for n in L.inner])
+        TAG = 'imem' if backend == 'imem' else 'sqlite'
         st0 = State()
-        st0.root = Cell(inner)
+        if backend == 'imem':
+            inner = Agg('Inner', 'Inner', 0, [SymMap(n) for n in L.inner])
+            st0.root = Cell(inner)
+            disp = ienv.dispatch
+            find = ic.method_func
+        else:
+            import qenv
+            src = open(os.path.join(repo, 'sqlite/src/lib.rs')).read().split('#[cfg(test)]')[0]
+            txn_fields = [f for f, _ in ic.struct_fields(src, 'Txn')]
+            if sorted(txn_fields) != ['client_id', 'con']:
+                raise Unsupported('fields of the SQLite Txn changed: %s' % txn_fields)
+            st0.root = Cell(Opaque('Conn', db=qenv.schema_from_source(src)))
+            disp = qenv.dispatch
+            find = sqlite_method
         st0.spec = Spec()
         st0.hres = []
         # counters far from overflow
         st0.cons = [z3.ULT(z3.BitVec('h_c%d' % i, 32), z3.BitVecVal(0x7fffffff, 32)) for i in (1, 2, 3)]
-        it = Interp(prog, dispatch=ienv.dispatch)
+        it = Interp(prog, dispatch=disp)
 
         def check(st, label, formula):
             r, solver, secs = ic.solve(st.cons + [z3.Not(formula)])
@@ -186,31 +213,35 @@ def run_history(task):
             st.cons = st.cons + [pre]
             if not it.feasible(st.cons):
                 return
-            f = ic.method_func(prog, method)
-            guard = Opaque('Guard', inner=st.root)
-            fields = {'client_id': cid, 'guard': guard, 'written': False, 'committed': False}
-            txn = Agg('InnerTxn', 'InnerTxn', 0, [fields[n] for n in L.txn])
+            f = find(prog, method)
+            if backend == 'imem':
+                guard = Opaque('Guard', inner=st.root)
+                fields = {'client_id': cid, 'guard': guard, 'written': False, 'committed': False}
+                txn = Agg('InnerTxn', 'InnerTxn', 0, [fields[n] for n in L.txn])
+            else:
+                fields = {'client_id': cid, 'con': st.root.v}
+                txn = Agg('Txn', 'Txn', 0, [fields[n] for n in txn_fields])
             res = it.run_function(f, [Ref(Cell(txn))] + call_args(L, method, args), st)
             out['calls'] += 1
             for (s, rv) in res:
                 r = ic.flat_result(L, method, rv)
                 tag = '%s (call %d of history "%s")' % (method, k + 1, name)
                 if r['kind'] == 'panic':
-                    check(s, 'c13.imem.h %s: never panics on a history that respects the preconditions' % method, F)
+                    check(s, 'c13.%s.h' % TAG + ' %s: never panics on a history that respects the preconditions' % method, F)
                     continue
                 if method in ('new_client', 'add_version', 'set_snapshot'):
-                    check(s, 'c13.imem.h %s: succeeds exactly when the contract says so (client known, preconditions met)' % method, z3.BoolVal(r['kind'] == 'ok') == ok)
+                    check(s, 'c13.%s.h' % TAG + ' %s: succeeds exactly when the contract says so (client known, preconditions met)' % method, z3.BoolVal(r['kind'] == 'ok') == ok)
                 elif method == 'get_snapshot_data':
                     got_bytes = r['kind'] == 'ok' and r.get('some') is True
-                    check(s, 'c11.imem.h get_snapshot_data: bytes exactly when the client has a snapshot for that version', z3.BoolVal(got_bytes) == some)
+                    check(s, 'c11.%s.h' % TAG + ' get_snapshot_data: bytes exactly when the client has a snapshot for that version', z3.BoolVal(got_bytes) == some)
                     if got_bytes:
-                        check(s, 'c11.imem.h get_snapshot_data: the bytes of THIS client\'s latest snapshot upload', z3.Implies(some, r['vals'][0] == vals[0]))
+                        check(s, 'c11.%s.h' % TAG + ' get_snapshot_data: the bytes of THIS client\'s latest snapshot upload', z3.Implies(some, r['vals'][0] == vals[0]))
                 else:
-                    check(s, 'c13.imem.h %s: answers Ok' % method, z3.BoolVal(r['kind'] == 'ok'))
+                    check(s, 'c13.%s.h' % TAG + ' %s: answers Ok' % method, z3.BoolVal(r['kind'] == 'ok'))
                     if r['kind'] == 'ok':
-                        check(s, 'c09.imem.h %s: Some exactly when THIS client has the record' % method, z3.BoolVal(bool(r.get('some'))) == some)
+                        check(s, 'c09.%s.h' % TAG + ' %s: Some exactly when THIS client has the record' % method, z3.BoolVal(bool(r.get('some'))) == some)
                         if r.get('some'):
-                            check(s, 'c07.imem.h %s: the record as the contract holds it (ids, payload, latest, counter)' % method,
+                            check(s, 'c07.%s.h' % TAG + ' %s: the record as the contract holds it (ids, payload, latest, counter)' % method,
                                   z3.Implies(some, z3.And([a == b for a, b in zip(r['vals'], vals)])))
                 if not it.feasible(s.cons):
                     continue
@@ -251,17 +282,17 @@ def script_of_model(hist, m, upto):
     return {'steps': steps, 'build_steps': 0}
 
 
-def run_all(mir_path, repo, jobs=3):
+def run_all(mir_path, repo, jobs=4, backend='imem'):
     import multiprocessing as mp
     t0 = time.time()
-    tasks = [(mir_path, repo, n) for n in histories()]
+    tasks = [(mir_path, repo, n, backend) for n in histories()]
     with mp.get_context('fork').Pool(min(jobs, len(tasks))) as pool:
         outs = pool.map(run_history, tasks, chunksize=1)
     return outs, time.time() - t0
 
 
 if __name__ == '__main__':
-    outs, wall = run_all(sys.argv[1], sys.argv[2] if len(sys.argv) > 2 else '/repo')
+    outs, wall = run_all(sys.argv[1], sys.argv[2] if len(sys.argv) > 2 else '/repo', backend=sys.argv[3] if len(sys.argv) > 3 else 'imem')
     for o in outs:
         print(o['history'], 'paths', o['paths'], 'calls', o['calls'], 'queries', o['queries'], 'solver %.1fs' % o['solver_s'], 'error', o['error'])
         for k, v in o['obl'].items():
